@@ -317,7 +317,7 @@ def _evr_case(draw):
         else:
             other = draw(_evr())
         pk.append(other)
-    return {"pkgs": pk, "via": draw(st.sampled_from(["dict", "json", "parser"]))}
+    return {"pkgs": pk, "via": draw(st.sampled_from(["dict", "json", "parser", "mixed-classes"]))}
 
 
 def strat_evr(tier):
@@ -346,7 +346,12 @@ def check_evr(case):
             d["epoch"] = p["epoch"]
         dicts.append(d)
     parser_obj = None
-    if case["via"] == "dict":
+    if case["via"] == "mixed-classes":
+        # packages from `rpm -qa` compared with the same-named packages from `yum list` (a subclass
+        # with an extra attribute): the ordering is the same relation
+        from insights.parsers.yum_list import YumListRpm
+        objs = [(YumListRpm(dict(d, repo="r%d" % k)) if k % 2 else InstalledRpm(d)) for k, d in enumerate(dicts)]
+    elif case["via"] == "dict":
         objs = [InstalledRpm(d) for d in dicts]
     elif case["via"] == "json":
         objs = [InstalledRpm.from_json(json.dumps(d)) for d in dicts]
